@@ -14,6 +14,7 @@ import Orda.Proofs.DocPatch
 import Orda.Proofs.DocRemoteInv
 import Orda.Proofs.DocTxNet
 import Orda.Proofs.RestPatch
+import Orda.Proofs.RestPatchCreate
 namespace Orda.Props.C19
 open Orda
 
@@ -174,5 +175,33 @@ theorem rest_patch_to_current_value_is_silent
     (st.patchDocument colName key dd.view tmpDuid tmpCuid).2.2.1 = [] ∧
     (st.patchDocument colName key dd.view tmpDuid tmpCuid).2.2.2 = [] :=
   RestP.patchDocument_same_is_silent st colName key tmpDuid tmpCuid col d r0 ver dd hc hd ht hl hs hinv
+
+/-- the CREATED-document case in full: on an absent key, with a fresh random id and a non-empty target, the endpoint answers the
+    target, stores the creation snapshot operation and the patch unit as operations 1..n of a new document record, announces the new
+    end of the log once, starts one snapshot update, and the latest state rebuilt from the store has the target as its value -/
+theorem rest_patch_creates_and_stores_the_target
+    (st : Store) (colName key tmpDuid tmpCuid : String) (col : CollectionDoc)
+    (hc : st.getCollection colName = some col) (hd : st.getDatatypeByKey col.num key = none)
+    (hlog : LogInv st) (hfresh : st.getDatatype tmpDuid = none) (hsnap : ∀ s ∈ st.snapshots, s.duid ≠ tmpDuid)
+    (tgt : List (String × JVal)) (hn : (JVal.obj tgt).hasNull = false) (hk : DC.JKeysND (.obj tgt)) (hne : tgt ≠ []) :
+    ∃ (st' : Store) (v : JVal) (n : Nat) (nd : List OpDoc) (r' : Replica),
+      st.patchDocument colName key (.obj tgt) tmpDuid tmpCuid =
+        (st', .ok v, [⟨col.name ++ "/" ++ key, patchApiCuid, tmpDuid, n⟩], [(tmpDuid, col.num)]) ∧
+      v.canon = (JVal.obj tgt).canon ∧ 2 ≤ n ∧
+      st'.operations = st.operations ++ nd ∧ nd.length = n ∧ (∀ o ∈ nd, o.duid = tmpDuid ∧ o.colNum = col.num) ∧
+      nd.map (·.sseq) = List.range' 1 n ∧
+      st'.getDatatypeByKey col.num key =
+        some { duid := tmpDuid, key := key, colNum := col.num, typ := .document, sseqEnd := n } ∧
+      st'.latest { duid := tmpDuid, key := key, colNum := col.num, typ := .document, sseqEnd := n } = some (r', n) ∧
+      (∃ dd, r'.state = .doc dd ∧ dd.view.canon = (JVal.obj tgt).canon) :=
+  RestP.patchDocument_creates_and_stores_target st colName key tmpDuid tmpCuid col hc hd hlog hfresh hsnap tgt hn hk hne
+
+/-- … and the empty object on an absent key: answered OK `{}`, NOTHING is stored — the document is not created (the model's, and by
+    the `rest` correspondence the implementation's, behaviour, stated exactly) -/
+theorem rest_patch_empty_target_on_absent_key_creates_nothing
+    (st : Store) (colName key tmpDuid tmpCuid : String) (col : CollectionDoc)
+    (hc : st.getCollection colName = some col) (hd : st.getDatatypeByKey col.num key = none) :
+    st.patchDocument colName key (.obj []) tmpDuid tmpCuid = (st, .ok (.obj []), [], []) :=
+  RestP.patchDocument_create_empty_target_stores_nothing st colName key tmpDuid tmpCuid col hc hd
 
 end Orda.Props.C19
